@@ -262,6 +262,66 @@ def std_model(m, path, args, t):
     if re.search(r'Vec::<.*>::push$', path) and len(args) == 2 and is_vec(a0):
         write_back(m, args[0], ('vec', a0[1] + [m.deref_value(args[1]) if not isinstance(m.deref_value(args[1]), dict) else m.deref_value(args[1])]))
         return sym('unit')
+    if re.search(r'Vec::<.*>::remove$', path) and len(args) == 2 and is_vec(a0):
+        i = m.deref_value(args[1])
+        if not isinstance(i, int) or not 0 <= i < len(a0[1]):
+            raise Unknown('remove(%r) from a vector of %d' % (i, len(a0[1])))
+        write_back(m, args[0], ('vec', a0[1][:i] + a0[1][i + 1:]))
+        return a0[1][i]
+    if re.search(r'Vec::<.*>::insert$', path) and len(args) == 3 and is_vec(a0):
+        i = m.deref_value(args[1])
+        if not isinstance(i, int) or not 0 <= i <= len(a0[1]):
+            raise Unknown('insert at %r into a vector of %d' % (i, len(a0[1])))
+        write_back(m, args[0], ('vec', a0[1][:i] + [m.deref_value(args[2])] + a0[1][i:]))
+        return sym('unit')
+    if re.search(r'Vec::<.*>::retain$', path) and len(args) == 2 and is_vec(a0):
+        keep = []
+        for n_, x in enumerate(a0[1]):
+            m.env['retain%d_%d' % (m.shared['frames'], n_)] = x
+            r = m.apply_fn(args[1], [('ptr', 'retain%d_%d' % (m.shared['frames'], n_), ())])
+            if r not in (0, 1):
+                raise Unknown('retain with a predicate that answers %r' % (r,))
+            if r:
+                keep.append(x)
+        write_back(m, args[0], ('vec', keep))
+        return sym('unit')
+    if re.search(r'Iterator>?::position$|::position$', path) and len(args) == 2:
+        items = as_items(m, args[0])
+        if items is not None:
+            for n_, x in enumerate(items):
+                r = m.apply_fn(args[1], [x])
+                if r not in (0, 1):
+                    raise Unknown('position with a predicate that answers %r' % (r,))
+                if r:
+                    return some(m, n_)
+            return none(m)
+    if re.search(r'Iterator>?::(any|all)$', path) and len(args) == 2:
+        items = as_items(m, args[0])
+        if items is not None:
+            want_any = path.endswith('any')
+            for x in items:
+                r = m.apply_fn(args[1], [x])
+                if r not in (0, 1):
+                    raise Unknown('%s with a predicate that answers %r' % ('any' if want_any else 'all', r))
+                if want_any and r:
+                    return 1
+                if not want_any and not r:
+                    return 0
+            return 0 if want_any else 1
+    if re.search(r'Iterator>?::(find|filter)$', path) and len(args) == 2:
+        items = as_items(m, args[0])
+        if items is not None:
+            out = []
+            for n_, x in enumerate(items):
+                m.env['find%d_%d' % (m.shared['frames'], n_)] = x
+                r = m.apply_fn(args[1], [('ptr', 'find%d_%d' % (m.shared['frames'], n_), ())])
+                if r not in (0, 1):
+                    raise Unknown('find/filter with a predicate that answers %r' % (r,))
+                if r:
+                    if path.endswith('find'):
+                        return some(m, x)
+                    out.append(x)
+            return none(m) if path.endswith('find') else ('it', out, 'filter')
     if re.search(r'(Vec::<.*>|slice::<impl \[T\]>)::last$', path) and is_vec(a0):
         return some(m, a0[1][-1]) if a0[1] else none(m)
     if re.search(r'(Vec::<.*>|slice::<impl \[T\]>)::first$', path) and is_vec(a0):
